@@ -269,11 +269,16 @@ def clone_as_indexed(
     *,
     display_symbol: Optional[str] = None,
     display_latex: Optional[str] = None,
+    subscript: Optional[str] = None,
     **assumptions: Any,
 ) -> IndexedSymbol:
     assumptions = assumptions or source.assumptions0
     display_symbol = display_symbol or source.display_name
     display_latex = display_latex or source.display_latex
+
+    display_symbol, display_latex = _process_subscript_and_names(display_symbol, display_latex,
+        subscript)
+
     return IndexedSymbol(
         display_symbol,
         index,
